@@ -324,7 +324,7 @@ Theorem C09_source_tie :
                            /\ gen_ec_lo offset size = m_slice_lo offset size /\ gen_ec_hi offset size = m_slice_hi offset size
                            /\ gen_gd_lo offset (gen_gd_stop offset size) = m_slice_lo offset size
                            /\ gen_gd_hi offset (gen_gd_stop offset size) = m_slice_hi offset size)
-      /\ gen_td_shape = m_td_shape /\ gen_ec_shape = m_ec_shape /\ gen_gd_shape = m_gd_shape)
+      /\ gen_td_shape = m_td_shape /\ gen_ec_shape = m_ec_shape /\ gen_gd_shape = m_gd_shape /\ gen_af_shape = m_af_shape)
   (* global_offset.py *)
   /\ ((forall sizes, gen_go_offsets sizes = offsets sizes)
       /\ (forall s e n, gen_go_start_bad s n = m_go_start_bad s n /\ gen_go_start_negative s = m_go_start_negative s
@@ -346,7 +346,7 @@ Proof.
           | apply b_iv_default_slot | apply b_iv_value_slot | apply use_iv_value_slots; assumption
           | apply b_iv_array_trailing_default | apply b_iv_array_shape | apply b_iv_drop_count | apply b_iv_return_shape
           | apply b_ta_diff | apply b_ta_shape | apply b_td | apply b_ec | apply b_gd | apply b_td_shape | apply b_ec_shape
-          | apply b_gd_shape | apply b_go_offsets | apply b_go_start_bad | apply b_go_start_negative | apply b_go_stop_ok
+          | apply b_gd_shape | apply b_af_shape | apply b_go_offsets | apply b_go_start_bad | apply b_go_start_negative | apply b_go_stop_ok
           | apply use_go_checks | apply b_go_shift | apply b_go_shape
           | apply use_iv_slots; assumption ].
 Qed.
